@@ -1042,7 +1042,7 @@ fn emit_batch(b: &RecordBatch, desc: &str, what: &str) {
     }));
     match r {
         Ok(line) => {
-            let kf = if schema.fields().iter().any(|f| has_fsb0(f.data_type())) { " kf:zero-width-select" } else { "" };
+            let kf = if schema.fields().iter().any(|f| has_fsb0(f.data_type())) { " zero-width-type" } else { "" };
             EXTRA.with(|e| e.borrow_mut().push((line, format!("op:batch src:{} nt{}", what, kf))))
         }
         Err(_) => oracle(format!("panic:dump-batch:{}", what)),
